@@ -131,7 +131,7 @@ PROBES = {
     "prime-call-linebreak-before-continuation": ("judged",
         "// Reference layout: every bracketed expression is on one line.\nscale :: fn x: int -> int do\n    x * 3\nend\n\nadd :: fn a: int, b: int -> int do\n    a + b\nend\n\nstart :: fn do\n    base := 2\n    offset := 5\n\n    // scale(base + offset)\n    p := (scale' base + offset)\n\n    // scale(add(base, offset))\n    q := (scale' base -> add(offset))\n\n    // [scale(base - offset)]\n    r := [scale' base - offset]\n\n    p <=> 21\n    q <=> 21\n    r <=> [-9]\nend\ng :: fn x: int -> int do\n    x + 1\nend\nQ :: blob { v: int }\nother :: fn do\n    a := 1\n    b := 2\n    if 0 < g' a + b do\n        a = 0\n    end\n    c := g(g' a * b)\n    d := Q { v: g' a - b }\n    e := (a, g' a + b)\nend\n",
         "// Same program as oneline.sy - the only difference is that the bracketed\n// expressions are broken over several lines (and a comment line is added).\nscale :: fn x: int -> int do\n    x * 3\nend\n\nadd :: fn a: int, b: int -> int do\n    a + b\nend\n\nstart :: fn do\n    base := 2\n    offset := 5\n\n    // scale(base + offset)\n    p := (\n        scale' base\n        + offset\n    )\n\n    // scale(add(base, offset))\n    q := (scale' base\n          // then add the offset\n          -> add(offset))\n\n    // [scale(base - offset)]\n    r := [\n        scale' base\n        - offset\n    ]\n\n    p <=> 21\n    q <=> 21\n    r <=> [-9]\nend\ng :: fn x: int -> int do\n    x + 1\nend\nQ :: blob { v: int }\nother :: fn do\n    a := 1\n    b := 2\n    if 0 < g' a\n        // still the argument\n        + b do\n        a = 0\n    end\n    c := g(g' a\n        * b)\n    d := Q { v: g' a\n        - b }\n    e := (a, g' a\n\n        + b)\nend\n"),
-    "linebreak-in-constraint-list": ("unjudged",
+    "linebreak-in-constraint-list": ("judged",
         "f : (fn<V: CmpEqu> *V -> void) : external\nstart :: fn do\nend\n",
         "f : (fn<V\n: CmpEqu> *V -> void) : external\nstart :: fn do\nend\n"),
     "arrow-call-as-operand": ("unjudged",
